@@ -21,7 +21,7 @@ TRICKY = ['0*1', '1*0', 'a*b', 'b*a', 'aux0,1', 'aux1,0', 'auxa,b', '_0*1', '0*1
 POOL = [0, 1, 2, 3, 'a', 'b', 'c', ('t', 1), ('t', 2), 'x0', 5, 7]
 
 
-def rand_poly(rng, tier, nmax=6, dmax=5, tmax=7, namesakes=3):
+def rand_poly(rng, tier, nmax=6, dmax=5, tmax=7, namesakes=3, mirror_ok=True):
     n = rng.randint(3, nmax)
     pool = list(POOL)
     rng.shuffle(pool)
@@ -32,8 +32,13 @@ def rand_poly(rng, tier, nmax=6, dmax=5, tmax=7, namesakes=3):
             if x not in labels:
                 labels[rng.randrange(n)] = x
     labels = list(dict.fromkeys(labels))
+    # integer labels together with their string forms: 0 and '0' are different variables that print alike, so
+    # the names invented for the pairs (0, 1) and ('0', '1') ('0*1', 'aux0,1') coincide before de-duplication
+    mirror = mirror_ok and rng.random() < 0.22
+    if mirror:
+        labels = rng.sample([0, 1, 2, 3, 5, 7, -1, 10], min(len(labels), rng.randint(3, 4)))
     n = len(labels)
-    vartype = rng.choice(['BINARY', 'SPIN'])
+    vartype = rng.choice(['BINARY', 'SPIN', 'SPIN'] if mirror else ['BINARY', 'SPIN'])
     terms = []
     if rng.random() < 0.5:
         terms.append([[], str(rng.dyadic(8, 2))])
@@ -59,6 +64,10 @@ def rand_poly(rng, tier, nmax=6, dmax=5, tmax=7, namesakes=3):
         if b == 0 and rng.random() < 0.7:
             b = Fraction(1)
         terms.append([[enc_label(x) for x in t], str(b)])
+    if mirror:
+        for t, _b in list(terms):
+            if t and rng.random() < 0.85:
+                terms.append([[str(x) for x in t], str(rng.dyadic(8, 2) or Fraction(1))])
     # variables that carry the very names the reduction invents for a pair of some higher-order term
     # ('u*v', 'v*u', '_u*v', 'auxu,v', ...) but occur only in terms of degree <= 2 - e.g. the output of an
     # earlier reduction fed back in together with new higher-order terms
@@ -98,7 +107,7 @@ def gen_case(rng, tier):
     kind = rng.choice(KINDS)
     big = tier == 'thorough'
     if kind == 'hoc':
-        vartype, terms = rand_poly(rng, tier, nmax=4, dmax=4, tmax=4, namesakes=1)
+        vartype, terms = rand_poly(rng, tier, nmax=4, dmax=4, tmax=4, namesakes=1, mirror_ok=False)
         x = rng.random()
         if x < 0.06:         # constant only: the quadratic model has no variable, the child returns no row
             terms = [[[], str(rng.dyadic(8, 2))]]
